@@ -634,6 +634,6 @@ theorem C38_client_noretry (jit : Nat → Rat) (extra extOk : Bool) :
 example : validate defaultCfg = none ∧ (∀ n : Nat, (0 : Rat) ≤ (fun _ => (1 : Rat) / 2) n) ∧
     ((run defaultCfg (fun _ => (1 : Rat) / 2) 0 [.status 503 (.secs .nan), .connectErr, .status 200 .absent]).steps.map
         (fun s => s.slept)) = [some (.fin (1 / 4)), some (.fin (1 / 2)), none] :=
-  ⟨C38_default_valid, fun _ => by decide +kernel, by decide +kernel⟩
+  ⟨C38_default_valid, fun _ => (by decide +kernel : (0 : Rat) ≤ 1 / 2), by decide +kernel⟩
 
 end VgiVerif.C38
